@@ -5,7 +5,7 @@ carry renormalisation, sticky digit in the subnormal range) -/
 set_option linter.unusedSimpArgs false
 set_option linter.unusedVariables false
 namespace Apd.Props
-open Apd Apd.Oracle
+open Apd Apd.Oracle Apd.QuoL
 
 /-- zero dividend: the result is a zero with the ideal exponent, clamped into range -/
 theorem quo_zero_agrees (c : Ctx) (hc : c.WF) (neg : Bool) (shift : Int) (Y : Nat)
